@@ -236,6 +236,32 @@ pub fn mutate(format: usize, data: &[u8], rng: &mut Rng) -> Vec<u8> {
                         _ => d[6] = *rng.pick(&[0u8, 1, 2, 3, 0xFF]),
                     }
                 }
+                // a RAM page chunk re-encoded with the wrong amount of data: stored or zlib-compressed
+                // page of 0 / 1 / half / one byte less / one byte more / far too many bytes
+                if rng.chance(1, 3) {
+                    let ramps: Vec<usize> = offs.iter().copied().filter(|&o| o + 11 <= d.len() && &d[o..o + 4] == b"RAMP").collect();
+                    if !ramps.is_empty() {
+                        let o = ramps[rng.below(ramps.len() as u64) as usize];
+                        let sz = u32::from_le_bytes([d[o + 4], d[o + 5], d[o + 6], d[o + 7]]) as usize;
+                        let end = (o + 8 + sz).min(d.len());
+                        let page = d[o + 10];
+                        let len = *rng.pick(&[0usize, 1, 8191, 8192, 8193, 16383, 16385, 16384 + 3, 20000, 65535, 65536, 70000]);
+                        let fill = rng.u8();
+                        let raw: Vec<u8> = (0..len).map(|i| fill.wrapping_add((i / 97) as u8)).collect();
+                        let comp = rng.bool();
+                        let mut body = vec![comp as u8, 0, page];
+                        if comp {
+                            body.extend_from_slice(&miniz_oxide::deflate::compress_to_vec_zlib(&raw, 6));
+                        } else {
+                            body.extend_from_slice(&raw);
+                        }
+                        let tail = d[end..].to_vec();
+                        d.truncate(o + 4);
+                        d.extend_from_slice(&(body.len() as u32).to_le_bytes());
+                        d.extend_from_slice(&body);
+                        d.extend_from_slice(&tail);
+                    }
+                }
             }
             4 | 5 if format == 6 && d.len() > 16 => {
                 // VTX: size field, stereo byte, player frequency, string terminators
